@@ -7,6 +7,7 @@ From ZV.C18 Require Import ModelExec ProofsExec ProofsExec2.
 From ZV.C18 Require Import ModelGlobalPar ProofsGlobalPar.
 From ZV.C18 Require Import ModelYield ProofsYield ProofsBuffered.
 From ZV.C18 Require Import ModelStore ProofsStore.
+From ZV.C18 Require Import ModelLife ProofsLife.
 (* the dispatcher the harness-generated case files import: listed here so that building this file builds it *)
 From ZV.C18 Require ModelCases.
 From Coq Require Import Permutation.
@@ -888,3 +889,23 @@ Check store_ops :
   (forall s ids (g : N -> blob), (forall id, In id ids -> ms_get s id = Some (g id)) -> ms_get_batch s ids = Some (map g ids)) /\
   (forall s ids id, In id ids -> ms_get s id = None -> ms_get_batch s ids = None).
 Print Assumptions store_ops.
+
+(* shutdown() and submit() after it, every history of executor steps and shutdowns: queued + running + executed stays exactly the
+   multiset of accepted tasks, every accepted task was submitted before the first shutdown, and any number of submissions after a
+   shutdown are refused without touching the executor (no task is accepted into a queue that no worker will poll) *)
+Theorem shutdown_refuses :
+  forall fixed cap nw h e down acc,
+    l_run fixed cap (init nw) false [] h = (e, down, acc) ->
+    Permutation (queued e ++ running e ++ edone e) acc /\
+    (forall t, In t acc -> In t (submitted_before h)) /\
+    down = has_shutdown h /\
+    (forall e0 acc0 h', l_run fixed cap e0 true acc0 (map (fun t => LS (Submit t)) h') = (e0, true, acc0)).
+Proof. exact shutdown_refuses_proof. Qed.
+Check shutdown_refuses :
+  forall fixed cap nw h e down acc,
+    l_run fixed cap (init nw) false [] h = (e, down, acc) ->
+    Permutation (queued e ++ running e ++ edone e) acc /\
+    (forall t, In t acc -> In t (submitted_before h)) /\
+    down = has_shutdown h /\
+    (forall e0 acc0 h', l_run fixed cap e0 true acc0 (map (fun t => LS (Submit t)) h') = (e0, true, acc0)).
+Print Assumptions shutdown_refuses.
